@@ -221,7 +221,7 @@ impl Check for C16 {
 
     fn run(&self, ctx: &mut Ctx) -> Result<(), MachineryError> {
         let mut cases = vec![];
-        let nv = ctx.tier.pick(N_QUICK_VALS, VALS_ALL.len());
+        let nv = ctx.tier.pick(VALS_ALL.len(), VALS_ALL.len());
         // (1) binary operators in expression form + `..`
         for (oi, op) in BINOPS.iter().enumerate() {
             for l in 0..nv {
@@ -295,7 +295,7 @@ impl Check for C16 {
             cases.push(Case::new(src, T_TYPE, format!("type {}", k)));
         }
         let n_cases = cases.len();
-        ctx.rule = format!("complete matrix over {n} representative values of the 8 kinds (two per data kind, one of them empty/zero/false; thorough: 25 values incl. negative and maximal ints, multi-byte and digit strings, nested lists, containers holding functions, anonymous, bound and type functions): 15 binary operators + `..` x {n}x{n} operands (two spellings), 5 op-assign operators x 4 target forms x {n}x{n}, {c} typed contexts x {n} values, ->type() x {n}; every cell is a distinct (operator, operands, form) tuple and non-trivial", n = nv, c = CONTEXTS.len());
+        ctx.rule = format!("complete matrix over {n} representative values of the 8 kinds (two per data kind, one of them empty/zero/false; incl. negative and maximal ints, multi-byte and digit strings, nested lists, containers holding functions, anonymous, bound and type functions): 15 binary operators + `..` x {n}x{n} operands (two spellings), 5 op-assign operators x 4 target forms x {n}x{n}, {c} typed contexts x {n} values, ->type() x {n}; every cell is a distinct (operator, operands, form) tuple and non-trivial", n = nv, c = CONTEXTS.len());
         ctx.rule.push_str("; every cell followed by a third operand that prints when it is reached (3 continuations and a list), every value and the keyword literals written directly in 5 slot shapes; a kind error names the kinds");
         ctx.extra.insert(
             "bounds".into(),
